@@ -507,6 +507,45 @@ def _aw_state_out(res, ex):
     return [("env_state", "S", term_of(res.fields["env_state"]))]
 
 
+def pure_wrapper_kernels(prefix, file, cls, statecls, fname, fty, methods):
+    """kernels for the methods of one of the `AbstractPure*Wrapper` classes: self.env is the record E, self.func the function `fname`"""
+    files, clss = [file, "wrapper/base_wrapper.py"], [cls, "AbstractWrapper"]
+    prims = {statecls: ctor_prim(file, statecls)}
+    params = f"{{S A O : Type}} (E : env S A O) ({fname} : {fty})"
+
+    def wself():
+        def func(ex, n, a, k):
+            if len(a) != 1 or k or not isinstance(a[0], Sc):
+                fail(n, "func call form")
+            return Sc("R" if a[0].ty == "R" else "O", f"({fname} {a[0].t})")
+        return Obj({"env": env_obj("E"), "func": Prim(func)}, cls)
+
+    def st(x):
+        return Obj({"env_state": O(x)}, statecls)
+
+    def state_out(res, ex):
+        if not (isinstance(res, Obj) and set(res.fields) == {"env_state"}):
+            raise TranslateError("not a wrapper state")
+        return [("env_state", "S", term_of(res.fields["env_state"]))]
+
+    def val(ty):
+        return lambda res, ex: [("value", ty, term_of(res))]
+    spec = {
+        "initial": (lambda: {"self": wself(), "key": K("k")}, " (k : kpath)", state_out),
+        "transition": (lambda: {"self": wself(), "state": st("s"), "action": O("a"), "key": K("k")}, " (s : S) (a : A) (k : kpath)", state_out),
+        "observation": (lambda: {"self": wself(), "state": st("s"), "key": K("k")}, " (s : S) (k : kpath)", val("O")),
+        "reward": (lambda: {"self": wself(), "state": st("s"), "action": O("a"), "next_state": st("s2"), "key": K("k")},
+                   " (s : S) (a : A) (s2 : S) (k : kpath)", val("Q")),
+        "terminal": (lambda: {"self": wself(), "state": st("s"), "key": K("k")}, " (s : S) (k : kpath)", val("bool")),
+        "truncate": (lambda: {"self": wself(), "state": st("s")}, " (s : S)", val("bool")),
+        "action_mask": (lambda: {"self": wself(), "state": st("s"), "key": K("k")}, " (s : S) (k : kpath)", val("option (list bool)")),
+        "transition_info": (lambda: {"self": wself(), "state": st("s"), "action": O("a"), "next_state": st("s2")}, " (s : S) (a : A) (s2 : S)", val("Q")),
+    }
+    return [Kernel(f"{prefix}_{m}", files, clss, m, spec[m][0], params + spec[m][1], spec[m][2], prims=prims, carrier="Q") for m in methods]
+
+
+_ALL_METHODS = ["initial", "transition", "observation", "reward", "terminal", "truncate", "action_mask", "transition_info"]
+
 KERNELS = {
     "C04": [Kernel("onstep", "algorithm/on_policy.py", "AbstractActorCriticOnPolicyAlgorithm", "step", _onstep_bind,
                    "{S PS O CB : Type} (gamma : Q) (E : env S Q O) (P : acpol PS Q O) (es : S) (ps : PS) (cbs : CB) (k : kpath)",
@@ -543,6 +582,8 @@ KERNELS = {
                 lambda res, ex: [("value", "bool", term_of(res))]),
             _aw("aw_terminal", "terminal", lambda: {"self": _aw_self(), "state": _aw_state("s"), "key": K("k")}, " (s : S) (k : kpath)",
                 lambda res, ex: [("value", "bool", term_of(res))]),
+            *pure_wrapper_kernels("ow", "wrapper/transform_observation.py", "AbstractPureObservationWrapper", "PureObservationState", "g", "O -> O", _ALL_METHODS),
+            *pure_wrapper_kernels("rw", "wrapper/transform_reward.py", "AbstractPureTransformRewardWrapper", "PureTransformRewardState", "h", "Q -> Q", _ALL_METHODS),
             _tl("tl_transition_info", "transition_info", lambda: {"self": _tl_self(), "state": _tl_state("c", "si"), "action": O("a"),
                                                                   "next_state": _tl_state("c2", "si2")},
                 " (c : Z) (si : S) (a : A) (c2 : Z) (si2 : S)", lambda res, ex: [("value", "Q", term_of(res))])],
